@@ -114,16 +114,16 @@ impl<'input> LambdaASTLexer<'input> {
         start_offset: usize,
         condition: impl Fn(char) -> bool,
     ) -> &'input str {
-        let mut end_pos = start_offset;
-        while let Some((pos, ch)) = self.chars.peek() {
+        while let Some((_, ch)) = self.chars.peek() {
             if !condition(*ch) {
                 break;
             }
-            end_pos = *pos;
             self.chars.next();
         }
+        // the token ends where the next unconsumed char starts: chars may be longer than one byte
+        let end_pos = self.chars.peek().map_or(self.input.len(), |(pos, _)| *pos);
 
-        &self.input[start_offset..end_pos + 1]
+        &self.input[start_offset..end_pos]
     }
 
     fn try_parse_first_token(&mut self) -> Spanned<Token<'input>, usize, LexerError> {
